@@ -80,6 +80,9 @@ func (p *cliPath) failedBefore(i int) bool {
 // anyFailure: some fallible event failed on this path (a missing output file at -rm is no failure).
 func (p *cliPath) anyFailure() bool { return p.failedBefore(len(p.Events)) }
 
+// cliMaxArgs is the largest number of positional arguments explored (thorough: 5).
+var cliMaxArgs = 3
+
 func cliExplore(prog *load.Program) ([]*cliPath, error) {
 	mainFn := prog.LookupFunc(load.PkgMain, "main")
 	if mainFn == nil {
@@ -110,7 +113,7 @@ func cliEnvs() []cliEnv {
 	var out []cliEnv
 	for _, o := range []bool{false, true} {
 		for _, rm := range []bool{false, true} {
-			for n := 0; n <= 3; n++ {
+			for n := 0; n <= cliMaxArgs; n++ {
 				out = append(out, cliEnv{Out: o, Rm: rm, NArgs: n})
 			}
 		}
@@ -394,6 +397,9 @@ func cliPathsOf(c *Ctx) []*cliPath {
 		return c.cliPaths
 	}
 	c.cliDone = true
+	if c.Tier == "thorough" {
+		cliMaxArgs = 5
+	}
 	ps, err := cliExplore(c.Prog)
 	if err != nil {
 		c.Run.Undecided("G-CLI/resolve", "package-main", "main.go", "the command-line front end cannot be interpreted: "+err.Error())
